@@ -24,7 +24,7 @@ logging.disable(logging.CRITICAL)
 
 MODEL = ['Model.Acl']
 FIXED_CID = 0x3E
-MOD = 1000000007
+MASK = (1 << 30) - 1
 
 
 # ----------------------------------------------------------------------------- helpers
@@ -35,7 +35,7 @@ def pat(n, a, b):
 def digest(bs):
     acc = 0
     for x in bs:
-        acc = (acc * 31 + x + 1) % MOD
+        acc = (acc * 31 + x + 1) & MASK
     return acc
 
 
@@ -448,7 +448,10 @@ def iso_model_norm(res):
             out.append(None)
             continue
         pk = []
-        for obs, raw, back in o:
+        for item in o:
+            # Coq prints left-nested pairs flat: (iso_obs p, raw, back) is a 7-tuple
+            obs, raw, back = item[:5], item[5], item[6]
+
             def fix(ob):
                 h, pb, ln, info, frag = ob
                 return [h, pb, ln, [opt(x) for x in info], bytes(frag)]
@@ -625,11 +628,11 @@ def two_oracle(geom, sends, res):
     return None
 
 
-def gen_two_case(rng, big):
+def gen_two_case(rng, big, quick=True):
     ms = [2, 3, 4, 5, 7, 8, 16, 23, 27, 27, 32, 64, 251, 255, 256, 1021, 4096, 65535]
     geom = [(rng.choice(ms), rng.choice([1, 1, 2, 3, 8, 64])) for _ in range(2)]
     if big:
-        geom = [(max(m, rng.choice([27, 64, 251, 1021])), n) for m, n in geom]
+        geom = [(max(m, rng.choice([251, 1021, 4096] if quick else [27, 64, 251, 1021])), n) for m, n in geom]
     sends = []
     for d in (0, 1):
         lens = boundary_lengths(rng, geom[d][0], False) + boundary_lengths(rng, geom[1 - d][0], False)
@@ -696,6 +699,39 @@ def check_two(ctx, c, label, evaluate_model=True):
     return res, replay
 
 
+class Batch:
+    """All model evaluations of a run go through ONE ctx.coq_eval call (one build-lock
+    acquisition); expensive expressions are dealt round-robin over the shards."""
+
+    def __init__(self):
+        self.items = []     # (cost, expr)
+
+    def add(self, expr, cost=1):
+        self.items.append((cost, expr))
+        return len(self.items) - 1
+
+    def evaluate(self, ctx, per_shard=40):
+        n = len(self.items)
+        if n == 0:
+            return []
+        nshards = max(1, -(-n // per_shard))
+        order = sorted(range(n), key=lambda i: (-self.items[i][0], i))
+        buckets = [[] for _ in range(nshards)]
+        for k, i in enumerate(order):
+            buckets[k % nshards].append(i)
+        size = len(buckets[0])
+        flat = []
+        for bkt in buckets:
+            flat += bkt + [None] * (size - len(bkt))
+        exprs = [self.items[i][1] if i is not None else '0' for i in flat]
+        vals = ctx.coq_eval(MODEL, exprs, shard=size, timeout=1500)
+        out = [None] * n
+        for i, v in zip(flat, vals):
+            if i is not None:
+                out[i] = v
+        return out
+
+
 def run(ctx):
     from bumble import hci, l2cap, utils
 
@@ -715,23 +751,88 @@ def run(ctx):
     ctx.trusted += ['Model/Acl.v is a hand-written reading of host.py / hci.py / l2cap.py / controller.py, tied to the '
                     'code by differential execution only (no translator)']
     rng = ctx.rng
+    batch = Batch()
 
+    # ================= phase 1: generate cases, run the implementation, queue model expressions
     # ---------------- E: codecs
     codec = gen_codec_cases(rng, ctx.n(60, 600))
-    exprs = []
+    codec_idx = []
     for cid, payload in codec:
         pb = coq_bytes(payload)
-        exprs.append(f"(l2cap_to_bytes {cid} {pb}, l2cap_to_bytes_fcs {cid} {pb}, crc16 {pb}, "
-                     f"l2cap_from_bytes {pb}, "
-                     f"match l2cap_to_bytes {cid} {pb} with Some b => l2cap_from_bytes b | None => None end)")
+        codec_idx.append(batch.add(
+            f"(l2cap_to_bytes {cid} {pb}, l2cap_to_bytes_fcs {cid} {pb}, crc16 {pb}, l2cap_from_bytes {pb}, "
+            f"match l2cap_to_bytes {cid} {pb} with Some b => l2cap_from_bytes b | None => None end)"))
     hdr_cases = [(rng.choice([0, 1, 0xEFF, 0xFFF, rng.range(0, 0xFFF)]), rng.below(4), rng.below(4), rng.bytes(rng.below(6)))
                  for _ in range(ctx.n(60, 600))]
+    hdr_idx = []
     for h, pb, bc, data in hdr_cases:
-        exprs.append(f"let p := mkAcl {h} {pb} {bc} {len(data)} {coq_bytes(data)} in "
-                     "(acl_to_bytes p, match acl_to_bytes p with Some b => option_map acl_obs (acl_from_bytes b) | None => None end)")
-    res = ctx.coq_eval(MODEL, exprs)
-    for (cid, payload), r in zip(codec, res[:len(codec)]):
-        m_to, m_fcs, m_crc, m_from, m_rt = r
+        hdr_idx.append(batch.add(
+            f"let p := mkAcl {h} {pb} {bc} {len(data)} {coq_bytes(data)} in "
+            "(acl_to_bytes p, match acl_to_bytes p with Some b => option_map acl_obs (acl_from_bytes b) | None => None end)"))
+
+    # ---------------- A: fragmenter
+    ctx.log('A: Host.send_l2cap_pdu')
+    tx_cases = [
+        # fixed edge cases: unknown connection, struct.pack overflow, m = 1, 64 KiB
+        {'m': 27, 'n': 4, 'le': True, 'handle': 7, 'known': False, 'pdus': [(4, (40, 3, 1))]},
+        {'m': 27, 'n': 4, 'le': True, 'handle': 7, 'known': True, 'pdus': [(4, (65536, 3, 1))]},
+        {'m': 27, 'n': 4, 'le': True, 'handle': 7, 'known': True, 'pdus': [(65536, (3, 3, 1))]},
+        {'m': 1, 'n': 2, 'le': True, 'handle': 7, 'known': True, 'pdus': [(4, (5, 3, 1)), (4, (0, 1, 1))]},
+        {'m': 27, 'n': 3, 'le': False, 'handle': 0xFFF, 'known': True, 'pdus': [(4, (65535, 7, 1)), (4, (65531, 9, 2))]},
+        {'m': 65535, 'n': 1, 'le': True, 'handle': 1, 'known': True,
+         'pdus': [(4, (65535, 7, 1)), (4, (65531, 9, 2)), (5, (65532, 1, 0))]},
+    ]
+    for _ in range(ctx.n(250, 4000)):
+        tx_cases.append(gen_tx_case(rng, ctx.quick()))
+    tx_runs = []
+    for k, c in enumerate(tx_cases):
+        tx_runs.append(run_host_tx(c['m'], c['n'], c['le'], c['handle'], c['known'], c['pdus'], rng.fork(f'tx{k}')))
+        c['idx'] = batch.add(tx_expr(c), cost=1 + sum(s[0] for _, s in c['pdus']) // 2000)
+
+    # ---------------- B: assembler
+    ctx.log('B: assembler')
+    asm_cases = [gen_asm_case(rng) for _ in range(ctx.n(300, 5000))]
+    streams = [realise_stream(c) for c in asm_cases]
+    asm_runs = []
+    for k, (c, s) in enumerate(zip(asm_cases, streams)):
+        via_host = k % 2 == 1
+        asm_runs.append(run_asm_impl(s, via_host, c['handle']))
+        c['idx'] = batch.add(asm_expr(s, via_host))
+
+    # ---------------- C: ISO
+    ctx.log('C: send_iso_sdu')
+    iso_cases = [gen_iso_case(rng) for _ in range(ctx.n(150, 2500))]
+    iso_runs = []
+    for k, c in enumerate(iso_cases):
+        iso_runs.append(run_iso_impl(c, rng.fork(f'iso{k}')))
+        c['idx'] = batch.add(iso_expr(c), cost=1 + sum(len(s) for s in c['sdus']) // 2000)
+
+    # ---------------- D: two devices
+    ctx.log('D: two devices')
+    two_cases = [two_case_from_json(o['replay']) for o in load_corpus() if o.get('replay', {}).get('kind') == 'two']
+    ncorpus = len(two_cases)
+    for k in range(ctx.n(40, 600)):
+        two_cases.append(gen_two_case(rng, big=(k % 8 == 0), quick=ctx.quick()))
+    two_runs = []
+    for k, c in enumerate(two_cases):
+        res, replay = check_two(ctx, c, k)
+        two_runs.append((res, replay))
+        c['idx'] = []
+        for d in (0, 1):
+            cost = 1
+            for dd, _, spec in c['sends']:
+                if dd == d:
+                    cost += spec[0] // 2000 + (spec[0] // min(c['geom'][0][0], c['geom'][1][0])) * spec[0] // 200000
+            c['idx'].append(batch.add(two_expr(c['geom'], c['sends'], res['handles'], d), cost=cost))
+
+    # ================= phase 2: the model, once
+    ctx.log(f'evaluating {len(batch.items)} model expressions')
+    model = batch.evaluate(ctx)
+    ctx.log('model evaluated; comparing')
+
+    # ================= phase 3: compare, judge
+    for (cid, payload), i in zip(codec, codec_idx):
+        m_to, m_fcs, m_crc, m_from, m_rt = model[i]
         i_to = l2cap.L2CAP_PDU(cid, payload).to_bytes()
         i_fcs = l2cap.L2CAP_PDU(cid, payload).to_bytes(with_fcs=True)
         try:
@@ -740,50 +841,38 @@ def run(ctx):
         except Exception:
             i_from = None
         p = l2cap.L2CAP_PDU.from_bytes(i_to)
-        model = [bytes(opt(m_to)), bytes(opt(m_fcs)), m_crc,
-                 None if m_from is None else [opt(m_from)[0], bytes(opt(m_from)[1])],
-                 [opt(m_rt)[0], bytes(opt(m_rt)[1])]]
+        mm = [bytes(opt(m_to)), bytes(opt(m_fcs)), m_crc,
+              None if m_from is None else [opt(m_from)[0], bytes(opt(m_from)[1])],
+              [opt(m_rt)[0], bytes(opt(m_rt)[1])]]
         impl = [i_to, i_fcs, utils.crc_16(payload), i_from, [p.cid, bytes(p.payload)]]
         ctx.case(('codec', cid, payload), len(payload) > 0, None)
         ctx.count('E.l2cap_codec')
-        if model != impl:
-            ctx.disagree('L2CAP_PDU codec', {'cid': cid, 'payload': payload.hex()}, repr(model), repr(impl))
+        if mm != impl:
+            ctx.disagree('L2CAP_PDU codec', {'cid': cid, 'payload': payload.hex()}, repr(mm), repr(impl))
         if [p.cid, bytes(p.payload)] != [cid, payload]:
             ctx.violation('codec:l2cap', f'L2CAP_PDU({cid}, {len(payload)} bytes) does not survive to_bytes/from_bytes',
                           {'kind': 'codec', 'cid': cid, 'payload': payload.hex()})
-    for (h, pb, bc, data), r in zip(hdr_cases, res[len(codec):]):
-        m_b, m_back = r
+    for (h, pb, bc, data), i in zip(hdr_cases, hdr_idx):
+        m_b, m_back = model[i]
         pk = hci.HCI_AclDataPacket(h, pb, bc, len(data), data)
         raw = bytes(pk)
         back = acl_fields(hci.HCI_Packet.from_bytes(raw))
         ctx.case(('hdr', h, pb, bc, data), True, None)
         ctx.count('E.acl_header')
         mb = opt(m_back)
-        model = [bytes(opt(m_b)), [mb[0], mb[1], mb[2], mb[3], bytes(mb[4])]]
-        if model != [raw, back]:
-            ctx.disagree('HCI_AclDataPacket codec', {'h': h, 'pb': pb, 'bc': bc}, repr(model), repr([raw, back]))
+        mm = [bytes(opt(m_b)), [mb[0], mb[1], mb[2], mb[3], bytes(mb[4])]]
+        if mm != [raw, back]:
+            ctx.disagree('HCI_AclDataPacket codec', {'h': h, 'pb': pb, 'bc': bc}, repr(mm), repr([raw, back]))
         if back != [h, pb, bc, len(data), data]:
             ctx.violation('codec:acl', f'ACL header handle={h} pb={pb} bc={bc} does not survive the wire',
                           {'kind': 'acl_header', 'h': h, 'pb': pb, 'bc': bc, 'data': data.hex()})
 
-    # ---------------- A: fragmenter
-    tx_cases = []
-    # fixed edge cases first: unknown connection, struct.pack overflow, m = 1, 64 KiB
-    tx_cases.append({'m': 27, 'n': 4, 'le': True, 'handle': 7, 'known': False, 'pdus': [(4, (40, 3, 1))]})
-    tx_cases.append({'m': 27, 'n': 4, 'le': True, 'handle': 7, 'known': True, 'pdus': [(4, (65536, 3, 1))]})
-    tx_cases.append({'m': 27, 'n': 4, 'le': True, 'handle': 7, 'known': True, 'pdus': [(65536, (3, 3, 1))]})
-    tx_cases.append({'m': 1, 'n': 2, 'le': True, 'handle': 7, 'known': True, 'pdus': [(4, (5, 3, 1)), (4, (0, 1, 1))]})
-    tx_cases.append({'m': 27, 'n': 3, 'le': False, 'handle': 0xFFF, 'known': True, 'pdus': [(4, (65535, 7, 1)), (4, (65531, 9, 2))]})
-    tx_cases.append({'m': 65535, 'n': 1, 'le': True, 'handle': 1, 'known': True, 'pdus': [(4, (65535, 7, 1)), (4, (65531, 9, 2)), (5, (65532, 1, 0))]})
-    for _ in range(ctx.n(250, 4000)):
-        tx_cases.append(gen_tx_case(rng, ctx.quick()))
-    model = ctx.coq_eval(MODEL, [tx_expr(c) for c in tx_cases], shard=60)
-    asm_from_tx = []
-    for k, (c, mres) in enumerate(zip(tx_cases, model)):
-        status, pk = run_host_tx(c['m'], c['n'], c['le'], c['handle'], c['known'], c['pdus'], rng.fork(f'tx{k}'))
+    for k, (c, (status, pk)) in enumerate(zip(tx_cases, tx_runs)):
+        mres = model[c['idx']]
         multi = any(spec[0] + 4 > c['m'] for _, spec in c['pdus'])
-        ctx.case(('tx', c['m'], c['handle'], c['pdus']), multi,
-                 {'kind': 'host_tx', **{x: c[x] for x in ('m', 'n', 'handle')}, 'pdus': [[cid, list(s)] for cid, s in c['pdus']]} if k % 60 == 7 else None)
+        replay = {'kind': 'host_tx', 'm': c['m'], 'n': c['n'], 'le': c['le'], 'handle': c['handle'], 'known': c['known'],
+                  'pdus': [[cid, list(s)] for cid, s in c['pdus']]}
+        ctx.case(('tx', c['m'], c['handle'], c['pdus']), multi, replay if k % 60 == 7 else None)
         ctx.count('A.cases')
         ctx.count('A.pdus', len(c['pdus']))
         ctx.count('A.fragments', len(pk))
@@ -791,8 +880,6 @@ def run(ctx):
         for _, spec in c['pdus']:
             r = (spec[0] + 4) % c['m']
             ctx.count('A.pdu_len_mod_m.' + ('0' if r == 0 else '1' if r == 1 else 'm-1' if r == c['m'] - 1 else 'other'))
-        replay = {'kind': 'host_tx', 'm': c['m'], 'n': c['n'], 'le': c['le'], 'handle': c['handle'], 'known': c['known'],
-                  'pdus': [[cid, list(s)] for cid, s in c['pdus']]}
         mm = None if mres is None else norm(opt(mres))
         ii = None if status == 'error' else [acl_sum(f) for f in pk]
         if status == 'hang':
@@ -805,15 +892,9 @@ def run(ctx):
                 ctx.violation('tx:' + bad.split(':')[0].split('(')[0].strip().replace(' ', '') + f':m={c["m"]}',
                               f'Host.send_l2cap_pdu m={c["m"]}: {bad}', replay)
 
-    # ---------------- B: assembler
-    asm_cases = [gen_asm_case(rng) for _ in range(ctx.n(300, 5000))]
-    streams = [realise_stream(c) for c in asm_cases]
-    exprs = [asm_expr(s, k % 2 == 1) for k, s in enumerate(streams)]
-    model = ctx.coq_eval(MODEL, exprs, shard=100)
-    for k, (c, s, mres) in enumerate(zip(asm_cases, streams, model)):
+    for k, (c, s, (got, errors)) in enumerate(zip(asm_cases, streams, asm_runs)):
         via_host = k % 2 == 1
-        got, errors = run_asm_impl(s, via_host, c['handle'])
-        codes, mdel = mres
+        codes, mdel = model[c['idx']]
         ctx.case(('asm', c['m'], [(f[1], f[4]) for f in s]), bool(c['kinds']),
                  {'kind': 'asm', 'm': c['m'], 'junk': c['kinds'], 'pdus': [len(p) for _, p in c['good']]} if k % 70 == 3 else None)
         ctx.count('B.cases')
@@ -836,14 +917,11 @@ def run(ctx):
             ctx.disagree('HCI_AclDataPacketAssembler', replay, repr(mm)[:600], repr(got)[:600])
         bad = asm_oracle(c, raw)
         if bad:
-            ctx.violation('asm:' + bad.split('(')[0].strip().replace(' ', '_')[:40], f'assembler m={c["m"]} junk={c["kinds"]}: {bad}', replay)
+            ctx.violation('asm:' + bad.split('(')[0].strip().replace(' ', '_')[:40],
+                          f'assembler m={c["m"]} junk={c["kinds"]}: {bad}', replay)
 
-    # ---------------- C: ISO
-    iso_cases = [gen_iso_case(rng) for _ in range(ctx.n(150, 2500))]
-    model = ctx.coq_eval(MODEL, [iso_expr(c) for c in iso_cases], shard=100)
-    for k, (c, mres) in enumerate(zip(iso_cases, model)):
-        out, final_seq = run_iso_impl(c, rng.fork(f'iso{k}'))
-        mout, mseq = iso_model_norm(mres)
+    for k, (c, (out, final_seq)) in enumerate(zip(iso_cases, iso_runs)):
+        mout, mseq = iso_model_norm(model[c['idx']])
         multi = any(len(s) + 4 > c['maxp'] for s in c['sdus'])
         ctx.case(('iso', c['maxp'], c['seq0'], c['sdus']), multi,
                  {'kind': 'iso', 'max': c['maxp'], 'seq0': c['seq0'], 'sdu_lengths': [len(s) for s in c['sdus']]} if k % 50 == 2 else None)
@@ -864,21 +942,7 @@ def run(ctx):
         if final_seq != want_seq:
             ctx.violation('iso:sequence', f'send_iso_sdu: sequence number {final_seq} after {len(c["sdus"])} SDUs from {c["seq0"]}', replay)
 
-    # ---------------- D: two devices
-    two_cases = [two_case_from_json(o['replay']) for o in load_corpus() if o.get('replay', {}).get('kind') == 'two']
-    ncorpus = len(two_cases)
-    for k in range(ctx.n(40, 600)):
-        two_cases.append(gen_two_case(rng, big=(k % 8 == 0)))
-    results = []
-    for k, c in enumerate(two_cases):
-        res, replay = check_two(ctx, c, k)
-        results.append((res, replay))
-    exprs = []
-    for c, (res, _) in zip(two_cases, results):
-        for d in (0, 1):
-            exprs.append(two_expr(c['geom'], c['sends'], res['handles'], d))
-    model = ctx.coq_eval(MODEL, exprs, shard=8)
-    for k, (c, (res, replay)) in enumerate(zip(two_cases, results)):
+    for k, (c, (res, replay)) in enumerate(zip(two_cases, two_runs)):
         geom, sends = c['geom'], c['sends']
         multi = any(spec[0] + 4 > geom[d][0] for d, _, spec in sends)
         ctx.case(('two', geom, sends), multi, replay if k % 15 == 1 else None)
@@ -887,7 +951,7 @@ def run(ctx):
         ctx.count('D.pdus', len(sends))
         ctx.count('D.pdus>=65531', sum(1 for _, _, s in sends if s[0] >= 65531))
         for d in (0, 1):
-            mtx, mmid, mrx = model[2 * k + d]
+            mtx, mmid, mrx = model[c['idx'][d]]
             recv = 1 - d
             itx = [acl_sum(f) for f in parse_acl(res['tx'][d])]
             irx = [acl_sum(f) for f in parse_acl(res['rx'][recv])]
